@@ -28,6 +28,9 @@ MINIMUMS = {"quick": {"histories_judged": 8000, "shape:tighten-tighten": 300, "s
                          "shape:abandon-then-resume": 10000, "non-quiet": 50000, "colour_renderings": 5000}}
 
 OPS = ["bounds", "tighten", "complete", "valid", "edits", "edits1", "nonzero"]
+# the same operations applied to a sub-edit that edits() handed out (the holder of a sub-edit may drive it directly);
+# used by the sampled histories only
+SUB_OPS = ["sub:bounds", "sub:tighten", "sub:tighten", "sub:edits", "sub:nonzero", "sub:tight"]
 
 FIXED = [
     {"family": "json", "a": [[1, 2, [3]], [4], "abcdef"], "b": [[1, [3, 5]], [4, 6], "abdxef", {"k": 2}], "ds": "auto", "le": "on"},
@@ -73,7 +76,8 @@ def gen_cases(spec, ctx):
         case = families.gen_case(r, spec["family"], prof=gen.CLEAN if spec["family"] == "json" else None)
         for _ in range(6):
             c = dict(case)
-            c["ops"] = [r.choice(OPS) for _ in range(r.randint(1, 10))]
+            c["ops"] = [r.choice(OPS + SUB_OPS) if r.random() < 0.5 else r.choice(OPS) for _ in range(r.randint(1, 10))]
+            c["k"] = r.randrange(1 << 16)
             c["quiet"] = r.random() < 0.5
             c["colour"] = r.choice([None, None, True, False]) if spec["family"] in ("json", "xml", "csv", "plist") else None
             yield c
@@ -96,8 +100,18 @@ def sig(e):
     return (type(e).__name__, c, tuple(ss))
 
 
-def apply(e, op):
+def apply(e, op, k=0):
     from graphtage.tree import CompoundEdit
+    if op.startswith("sub:"):
+        subs = [x for x in monitors.walk_script(e) if x is not e] if isinstance(e, CompoundEdit) else []
+        if not subs:
+            return
+        target = subs[k % len(subs)]
+        if op == "sub:tight":
+            monitors.tight(target)
+        else:
+            apply(target, op[4:])
+        return
     if op == "bounds":
         e.bounds()
     elif op == "tighten":
@@ -161,15 +175,15 @@ def check(case, ctx):
                     if ctx is not None:
                         ctx.count("render_raised_left_to_C13:" + type(ex).__name__)
                 top = (getattr(d, "edit_list", None) or [d.edit])[0]
-                for op in ops:
-                    apply(top, op)
+                for i, op in enumerate(ops):
+                    apply(top, op, case.get("k", 0) + i)
                 got = sig(top)
                 if ctx is not None:
                     ctx.count("colour_renderings")
             else:
                 e = ta.edits(tb)
-                for op in ops:
-                    apply(e, op)
+                for i, op in enumerate(ops):
+                    apply(e, op, case.get("k", 0) + i)
                 got = sig(e)
         if got != ref:
             diags.append({"kind": "history-changes-result", "ops": ops, "quiet": case.get("quiet"), "colour": case.get("colour"),
@@ -190,6 +204,8 @@ def check(case, ctx):
             ctx.count("shape:edits-before-complete")
         if ar:
             ctx.count("shape:abandon-then-resume")
+        if any(o.startswith("sub:") for o in ops):
+            ctx.count("shape:sub-edit-driven-directly")
         ctx.seen(case, nontrivial=compound and (tt or eb or ar))
     return diags
 
